@@ -41,6 +41,7 @@ def discharge(res, name, desc, bounds, cons, expect_unsat=True, timeout=120, kno
         else:
             o.status, o.detail = "error", "vacuity witness unsatisfiable (scenario over-constrained): " + detail
     res.obligations.append(o)
+    common.log(f"  [e3] {name}: {o.status} ({o.solver_s}s) {o.detail[:120]}")
     return o, q
 
 
